@@ -12,6 +12,7 @@ import (
 	"github.com/getlantern/errors"
 	"github.com/getlantern/wal"
 	"github.com/getlantern/zenodb/encoding"
+	"github.com/getlantern/zenodb/simhook"
 )
 
 func (db *DB) Insert(stream string, ts time.Time, dims map[string]interface{}, vals map[string]interface{}) error {
@@ -97,6 +98,7 @@ loop:
 				// Ignore empty data
 				continue loop
 			}
+			simhook.Point("ins.tableRecv", t.db, t.Name)
 			bytesRead += len(read.data)
 			if t.insert(read.data, isFollower, h, read.offset, read.source) {
 				inserted++
@@ -106,6 +108,7 @@ loop:
 				skipped++
 			}
 			t.db.walBuffers.Put(read.data)
+			simhook.Point("ins.done", t.db, t.Name)
 			delta := time.Now().Sub(start)
 			if delta > 1*time.Minute {
 				t.log.Debugf("Read %v at %v per second", humanize.Bytes(uint64(bytesRead)), humanize.Bytes(uint64(float64(bytesRead)/delta.Seconds())))
